@@ -141,7 +141,7 @@ struct World
 		addrA = ip::make_address_v4("10.0.0.1"); addrB = ip::make_address_v4("10.0.1.1");
 		addrC = ip::make_address_v4("10.0.2.1"); addrD = ip::make_address_v4("10.0.3.1");
 		net.trace_packets = false;
-		net.wrap_drops = false;
+		net.wrap_drops = true;
 		// A's outgoing path: a fast hop and then a bottleneck, so that segments are dropped long after they were sent
 		int64_t const cap = plan.c("cap");
 		net.out_spec[addrA] = {queue_hop(0, plan.c("lat", 1000000), 0), queue_hop(plan.c("bw", 0), plan.c("lat2", 5000000), cap)};
@@ -758,6 +758,17 @@ struct LifecycleEngine : Engine
 			add("read", k_nc + 0, 0, 0, rng.pick(std::vector<int64_t>{7000000, 30000000}));
 			add("close", 0, 0, 0, rng.pick(std::vector<int64_t>{1000000, 7000000, 30000000}));
 		}
+		else if (cls < 0.40)
+		{
+			// a sender whose segments are tail-dropped one hop downstream, some time after they were sent
+			p.cfg["bw"] = rng.pick(std::vector<int64_t>{100000, 500000, 2000000});
+			p.cfg["cap"] = rng.pick(std::vector<int64_t>{1600, 3100, 4700});
+			add("listen", 0, 0, 0, 0);
+			add("accept", int64_t(rng.below(3)), 0, 0, 0);
+			add("connect", 0, 0, 0, 1000);
+			if (rng.chance(0.5)) add("read", k_nc + 0, 0, 0, 1000);
+			for (int k = 0; k < 3; ++k) add("write", 0, int64_t(rng.range(1, 2)), 0, 30000000);
+		}
 		bool const tcp_part = rng.chance(0.75);
 		bool const late_listen = rng.chance(0.15);
 		if (tcp_part && !late_listen) add("listen", 0, 0, 0, 0);
@@ -831,6 +842,12 @@ struct LifecycleEngine : Engine
 		if (ctx.violated) return;
 		size_t const N = cleanw->step_time.size();
 		ctx.tr.rec("clean", {int64_t(N), int64_t(cleanw->recs.size())}, {});
+		{
+			uint64_t drops = 0;
+			for (auto const& pr : cleanw->net.all_probes) drops += pr->drops.size();
+			// every probe upstream of the drop sees the notification; count scenarios and notifications
+			if (drops) { ctx.hit("scenarios_with_tail_drops"); ctx.hit("drop_notifications_seen", drops); }
+		}
 		for (auto const& r : cleanw->recs) ctx.hit((std::string("op_") + k_op_names[r->op]).c_str());
 		// 2. every boundary (stride-sampled when long) x intervention x object
 		size_t const maxb = size_t(std::max<int64_t>(10, plan.c("max_boundaries", 160)));
